@@ -442,10 +442,12 @@ func Derive(rng *rand.Rand, qf qframe.QFrame, meta Meta, n int, colOps bool) (qf
 					sel = append(sel, names[p])
 				}
 				if len(sel) > 2 && rng.Intn(2) == 0 {
-					for i, s := range sel {
+					// drop one non-id column through Drop (keeps the remaining columns in their original order)
+					for _, s := range sel {
 						if s != IDCol {
-							sel = append(sel[:i], sel[i+1:]...)
-							break
+							next = qf.Drop(s)
+							op = fmt.Sprintf("Drop(%q)", s)
+							return
 						}
 					}
 				}
@@ -540,7 +542,13 @@ func MakeRootFrom(rng *rand.Rand, f *Frame, maxDerive int, colOps bool) (*Root, 
 		nd = rng.Intn(maxDerive + 1)
 	}
 	dq, ops := Derive(rng, qf, meta, nd, colOps)
-	sh, err := ObserveGuard(dq)
+	// Observed through the public API only (no invariant hook): if a derivation step left the frame in a
+	// state that breaks later operations, the operation under test has to reveal that, as it would for a user.
+	var sh *Frame
+	var err error
+	if pv, _ := fw.Guard(func() { sh, err = Observe(dq) }); pv != nil {
+		return nil, fmt.Errorf("panic while observing the derived frame: %v", pv)
+	}
 	if err != nil {
 		return nil, err
 	}
